@@ -5,6 +5,7 @@
 #include <pika/synchronization/detail/condition_variable.hpp>
 #include <pika/concurrency/spinlock.hpp>
 #include <pika/mutex.hpp>
+#include <pika/thread.hpp>
 #include <mutex>
 
 using spin_t = pika::concurrency::detail::spinlock;
@@ -19,18 +20,8 @@ static void on_stuck()
     St& s = *g;
     if (s.issued >= s.nwaiters && s.resumed < s.nwaiters)
     {
-        long susp = -1, pend = -1, staged = -1, act = -1;
-        try
-        {
-            auto& tm = pika::detail::get_runtime().get_thread_manager();
-            susp = tm.get_thread_count(pika::threads::detail::thread_schedule_state::suspended);
-            pend = tm.get_thread_count(pika::threads::detail::thread_schedule_state::pending);
-            staged = tm.get_thread_count(pika::threads::detail::thread_schedule_state::staged);
-            act = tm.get_thread_count(pika::threads::detail::thread_schedule_state::active);
-        }
-        catch (...) {}
-        pmc_fail("lost-wakeup", "wake-up issued for %d waiter(s) but only %d resumed; runtime quiescent with suspended=%ld pending=%ld staged=%ld active=%ld",
-            s.issued, s.resumed, susp, pend, staged, act);
+        // (no queries to the runtime here: its queue locks may be held by a parked worker)
+        pmc_fail("lost-wakeup", "wake-up issued for %d waiter(s) but only %d resumed; the runtime is quiescent or only polling", s.issued, s.resumed);
     }
 }
 
@@ -128,6 +119,71 @@ static void mutex_wake()
     pmc_outcome("resumed=%d", s.resumed);
 }
 
+// two wake-ups with different restart states for the same blocked task: notify_one ("signaled") and
+// thread::interrupt ("abort").  Whatever their order relative to the worker that picks the task up,
+// the task must run again (it returns from wait or leaves it with the interruption exception).
+template <int INTERRUPT_EXTERNAL>
+static void two_wakers()
+{
+    static St s;
+    s = St{};
+    g = &s;
+    spin_t& mtx = *new spin_t;
+    auto& cond = *new pika::detail::condition_variable;
+    pmc_watch(&mtx, sizeof mtx, "lock");
+    pmc_watch(&cond, sizeof cond, "cond");
+    pmc_on_stuck(on_stuck);
+    rt::start();
+    pika::thread* t = nullptr;
+    int t_made = 0, joined = 0;
+    rt::spawn([&] {
+        t = new pika::thread([&] {
+            rt::watch_self("S0");
+            try
+            {
+                std::unique_lock<spin_t> l(mtx);
+                ++s.registered;
+                cond.wait(l);
+            }
+            catch (...) {}
+            ++s.resumed;
+            ++s.finished;
+        });
+        t_made = 1;
+        // waker A: notify once the waiter is registered
+        int guard = 0, woken = 0;
+        while (!woken && !s.resumed && ++guard < 300)
+        {
+            {
+                std::unique_lock<spin_t> l(mtx);
+                if (!cond.empty(l)) { cond.notify_one(std::move(l)); woken = 1; s.issued = 1; pmc_progress(); continue; }
+            }
+            pika::this_thread::yield();
+        }
+        PMC_ASSERT(woken || s.resumed, "harness", "waker never saw the waiter registered");
+        t->join();
+        joined = 1;
+        ++s.finished;
+    });
+    auto interrupter = [&](bool task) {
+        int guard = 0;
+        while (!(t_made && s.registered) && ++guard < 300) { if (task) pika::this_thread::yield(); else sched_yield(); }
+        if (t_made && s.registered)
+        {
+            try { t->interrupt(); s.issued = 1; } catch (pika::exception const&) {}    // already joined: the handle is empty (null_thread_id)
+            pmc_progress();
+        }
+        ++s.finished;
+    };
+    if (INTERRUPT_EXTERNAL) interrupter(false);
+    else rt::spawn([&] { rt::watch_self("interrupter"); interrupter(true); });
+    rt::stop();
+    PMC_ASSERT(s.resumed == 1, "lost-wakeup", "a task woken by notify_one and by interrupt() never ran again (resumed=%d)", s.resumed);
+    PMC_ASSERT(s.finished == 3 && joined, "task-lost", "%d of 3 bodies finished, joined=%d", s.finished, joined);
+    delete t;
+    pmc_outcome("resumed=%d", s.resumed);
+}
+
 int main(int argc, char** argv)
 {
     static const char* sites = "set_thread_state|set_active_state|execution_agent::do_(yield|resume)|detail::condition_variable::(wait|notify_one)|create_work|scheduling_loop.hpp:(9[0-9]|1[01][0-9])";
@@ -138,6 +194,8 @@ int main(int argc, char** argv)
         {"cv_task_waker_busy", cv_wake<0, 1, 1>, 1, 2, 0.15, 0.2, 1, focus, sites, "src"},
         {"cv_two_waiters", cv_wake<0, 0, 2>, 1, 2, 0.15, 0.15, 1, focus, sites, "src"},
         {"mutex_unlock_wakes", mutex_wake<0>, 1, 2, 0.15, 0.15, 1, "F-addr: pika::mutex + state words; same F-site set", sites, "src"},
+        {"two_wakers_signal_abort", two_wakers<0>, 2, 3, 0.2, 0.2, 1, focus, sites, "src"},
+        {"two_wakers_signal_abort_ext", two_wakers<1>, 2, 3, 0.15, 0.15, 1, focus, sites, "src"},
     };
     static const char* assumptions[] = {"sequentially consistent interleavings only", "2 worker threads", "fairness: a thread that spins (same failed operation, or 4000 atomic operations without a switch) is descheduled, i.e. the helper-task retry chain is cut by weak fairness"};
     pmc_config cfg{};
